@@ -34,6 +34,13 @@ func run(c *wk.Ctx) {
 			runCase(c, i)
 		}
 	}
+	if !c.Race {
+		for j := 0; j < c.Pick(64, 600); j++ {
+			if c.Mine(2000000 + j) {
+				scenarioDiscardRemovalFails(c, 2000000+j)
+			}
+		}
+	}
 }
 
 var clock int64
@@ -245,6 +252,7 @@ func runCase(c *wk.Ctx, i int) {
 	}
 	// ---- the driver
 	var openTr *leveldb.Transaction
+	removeFaults := false // once a table removal was made to fail, files may legitimately stay behind: no leak audits
 	driver := func() {
 		defer func() {
 			// a failed check may leave the transaction open: discard it, or the outside writers wait for ever
@@ -420,6 +428,13 @@ func runCase(c *wk.Ctx, i int) {
 			outcome := "commit"
 			if !bodyOK || r.Intn(4) == 0 {
 				outcome = "discard"
+				if withFaults && flt == nil && r.Intn(2) == 0 {
+					// the removal of the discarded transaction's tables fails: the files may stay, but nothing of
+					// their contents may ever be served again (their file numbers are handed back for reuse)
+					flt = st.AddFault(vstor.Fault{Kind: vstor.OpRemove, Type: storage.TypeTable, Nth: 1, Count: []int{1, 3, 1000, 1000}[r.Intn(4)]})
+					removeFaults = true
+					c.Count("discards_with_failing_table_removal", 1)
+				}
 			} else if r.Intn(12) == 0 {
 				outcome = "close"
 			}
@@ -542,7 +557,7 @@ func runCase(c *wk.Ctx, i int) {
 					}
 				}
 			}
-			if (outcome == "discard" || outcome == "discard-after-failed-commit") && nwriters == 0 {
+			if (outcome == "discard" || outcome == "discard-after-failed-commit") && nwriters == 0 && !removeFaults {
 				if settle() {
 					if ex := leak(db, st); ex != "" {
 						fail("residue:files-after-discard", ex, map[string]interface{}{"outcome": outcome})
